@@ -442,7 +442,7 @@ func (wk *worker) runEncode(c *encCase) []finding {
 		} else {
 			wk.st.rejected++
 		}
-		if v.total != before {
+		if err != nil && v.total != before {
 			add("add:bytes-written-by-failing-call", "the rejected extra Add%d wrote %d bytes", c.ci.n, v.total-before)
 		}
 		if err == nil {
